@@ -13,6 +13,8 @@ import (
 type KZGCommitments []common.KZGCommitment
 
 func (li *KZGCommitments) Deserialize(spec *common.Spec, dr *codec.DecodingReader) error {
+	// decode into a recycled object: drop what it holds (dr.List appends)
+	*li = (*li)[:0]
 	return dr.List(func() codec.Deserializable {
 		i := len(*li)
 		*li = append(*li, common.KZGCommitment{})
